@@ -15,4 +15,5 @@ def run(ck):
     milu_ops.spec_arity(ck)
     milu_ops.spec_access_tuple(ck, ck.dbs['milu'])
     milu_ops.spec_type_eq(ck, ck.dbs['milu'])
+    milu_ops.spec_array_literal_typing(ck, ck.dbs['milu'], nmembers=3)
     milu_ops.spec_accessors(ck)
